@@ -192,48 +192,28 @@ theorem unknown_never_valid {π : Type} (acc : π → Str → Option Bool) (reg 
 /-- non-vacuity: `x` is unknown to the generated registry -/
 example : genRegistry.knownNames.contains (cps "x") = false := by decide +kernel
 
-/-- what `CSSStyleDeclaration.valid` computes: the conjunction over the EFFECTIVE properties (for each name the
-last `!important` entry, else the last entry), and `getProperties()` never yields `None`. -/
-theorem decl_valid_is_conjunction_over_effective {π : Type} (acc : π → Str → Option Bool) (reg : Registry π)
-    (ff : Str) (fontFace : Bool) (b : Block) :
-    (declValid acc reg ff fontFace b = .ok true ↔
-      ∀ p, some p ∈ effective b → propValid acc reg ff fontFace p = .ok true) ∧
-    (∀ o ∈ effective b, ∃ p ∈ allProps b, o = some p) :=
-  ⟨declValid_true_iff acc reg ff fontFace b, effective_some b⟩
-
-/-
-T13.5 `conjunction`, full statement (does NOT hold — known finding `C13-valid-effective-only`):
-  declValid acc reg ff fontFace b = .ok true ↔ allEntriesValid acc reg ff fontFace b = true
-("a rule is valid iff all its declarations are"). The direction ⇐ holds without a guard; ⇒ holds exactly when
-no entry that is overridden by a later / more important one is invalid.
--/
-/-- T13.5 `conjunction`, partial: under the guard "every entry that is not effective is valid" the block's
-`valid` is the conjunction over all its declarations; ⇐ needs no guard. -/
-theorem decl_conjunction_partial {π : Type} (acc : π → Str → Option Bool) (reg : Registry π) (ff : Str)
-    (fontFace : Bool) (b : Block)
-    (guard : ∀ p ∈ allProps b, some p ∉ effective b → propValid acc reg ff fontFace p = .ok true) :
+/-- T13.5 `conjunction` for a declaration block, full strength (promoted from `decl_conjunction_partial` after
+the fix "CSSStyleDeclaration.valid checks every declaration"): for every registry, acceptance function, context
+and block, `CSSStyleDeclaration.valid` is `True` iff every declaration of the block is valid — overridden ones
+included. -/
+theorem decl_conjunction {π : Type} (acc : π → Str → Option Bool) (reg : Registry π) (ff : Str)
+    (fontFace : Bool) (b : Block) :
     declValid acc reg ff fontFace b = .ok true ↔ allEntriesValid acc reg ff fontFace b = true :=
-  ⟨all_of_declValid acc reg ff fontFace b guard, declValid_of_all acc reg ff fontFace b⟩
+  declValid_true_iff acc reg ff fontFace b
 
-theorem decl_all_valid_implies_valid {π : Type} (acc : π → Str → Option Bool) (reg : Registry π) (ff : Str)
-    (fontFace : Bool) (b : Block) (h : allEntriesValid acc reg ff fontFace b = true) :
-    declValid acc reg ff fontFace b = .ok true :=
-  declValid_of_all acc reg ff fontFace b h
-
-/-- the witness block of `C13-valid-effective-only`: `color:4; color:red` -/
+/-- the former witness of `C13-valid-effective-only` (`color:4; color:red`) -/
 def witnessBlock : Block :=
   [.prop { name := cps "color", value := cps "4", priority := [] },
    .prop { name := cps "color", value := cps "red", priority := [] }]
 
-/-- the finding, machine-checked on the model with the generated registry: the block is reported valid although
-its first declaration is invalid — the negation of the full conjunction statement at the witness -/
-example : declValid accRe genRegistry ffName false witnessBlock = .ok true ∧
+/-- … is now reported invalid (test on the model with the generated registry) -/
+example : declValid accRe genRegistry ffName false witnessBlock = .ok false ∧
     allEntriesValid accRe genRegistry ffName false witnessBlock = false := by decide +kernel
 
-/-- non-vacuity of the guard: it holds for a block without repeated names -/
-example : ∀ p ∈ allProps [.prop { name := cps "color", value := cps "4", priority := [] }, .other],
-    some p ∉ effective [.prop { name := cps "color", value := cps "4", priority := [] }, .other] →
-    propValid accRe genRegistry ffName false p = .ok true := by decide +kernel
+/-- non-vacuity: a block with a repeated name all of whose declarations are valid is valid -/
+example : declValid accRe genRegistry ffName false
+    [.prop { name := cps "color", value := cps "blue", priority := [] }, .other,
+     .prop { name := cps "color", value := cps "red", priority := cps "important" }] = .ok true := by decide +kernel
 
 /-- `CSSFontFaceRule.valid` — full strength: valid iff ALL its entries are valid in the `@font-face` context and
 `font-family` and `src` are present (its documented meaning). -/
@@ -241,36 +221,32 @@ theorem fontface_conjunction {π : Type} (acc : π → Str → Option Bool) (reg
     fontFaceValid acc reg ff b = .ok true ↔ ruleAllValid acc reg ff (.fontFace b) = true :=
   fontFaceValid_true_iff acc reg ff b
 
-/-- what `CSSStyleSheet.valid` computes: every top-level rule that HAS a `valid` attribute (style rules,
-`@font-face`) is valid; `@media`, `@page` and all other rules are skipped. -/
-theorem sheet_valid_is_conjunction_over_rules_with_valid {π : Type} (acc : π → Str → Option Bool)
-    (reg : Registry π) (ff : Str) (rules : List Rule) :
-    sheetValid acc reg ff rules = .ok true ↔
-      ∀ r ∈ rules, ruleValid acc reg ff r = none ∨ ruleValid acc reg ff r = some (.ok true) :=
-  sheetValid_true_iff acc reg ff rules
-
-/-
-T13.5 for sheets, full statement (does NOT hold — known findings `C13-valid-effective-only`,
-`C13-valid-skips-media-page`):
-  sheetValid acc reg ff rules = .ok true ↔ rulesAllValid acc reg ff rules = true
--/
-/-- T13.5 for sheets, partial: for sheets whose rules are style rules, `@font-face` rules and declaration-free
-rules (no `@media`, no `@page`), and whose style rules have no invalid overridden entry, the sheet is valid iff
-every declaration in it is (for `@font-face` additionally the two required descriptors). -/
-theorem sheet_conjunction_partial {π : Type} (acc : π → Str → Option Bool) (reg : Registry π) (ff : Str)
-    (rules : List Rule) (hplain : ∀ r ∈ rules, r.plain = true)
-    (hguard : ∀ b, Rule.style b ∈ rules → NoShadowedInvalid acc reg ff b) :
+/-- T13.5 for rules and sheets, full strength (promoted from `sheet_conjunction_partial` after the fixes
+"CSSStyleDeclaration.valid checks every declaration" and "CSSStyleSheet.valid no longer skips declarations inside
+@media and @page"): for EVERY sheet — style rules, `@font-face`, `@media` with arbitrarily nested rules, `@page`
+with margin rules, declaration-free rules — `CSSStyleSheet.valid` is `True` iff every declaration anywhere in the
+sheet is valid (for `@font-face` additionally the two required descriptors). No guard. -/
+theorem sheet_conjunction {π : Type} (acc : π → Str → Option Bool) (reg : Registry π) (ff : Str)
+    (rules : List Rule) :
     sheetValid acc reg ff rules = .ok true ↔ rulesAllValid acc reg ff rules = true :=
-  sheet_conjunction acc reg ff rules hplain hguard
+  Validate.sheet_conjunction acc reg ff rules
 
-/-- the finding `C13-valid-skips-media-page`, machine-checked: `@media all{a{color:4}}` and `@page{color:4}`
-are reported valid -/
+/-- … and the same for every single rule that has a `valid` attribute; a rule without one has no declarations -/
+theorem rule_conjunction {π : Type} (acc : π → Str → Option Bool) (reg : Registry π) (ff : Str) (r : Rule) :
+    (ruleValid acc reg ff r = none ∧ ruleAllValid acc reg ff r = true) ∨
+    (∃ v, ruleValid acc reg ff r = some v ∧ (v = .ok true ↔ ruleAllValid acc reg ff r = true)) :=
+  ruleValid_spec acc reg ff r
+
+/-- the former witnesses of `C13-valid-skips-media-page` are now reported invalid, valid nested content stays
+valid (tests on the model) -/
 example :
     let bad : Block := [.prop { name := cps "color", value := cps "4", priority := [] }]
-    sheetValid accRe genRegistry ffName [.media [.style bad]] = .ok true ∧
-    rulesAllValid accRe genRegistry ffName [.media [.style bad]] = false ∧
-    sheetValid accRe genRegistry ffName [.page bad []] = .ok true ∧
-    rulesAllValid accRe genRegistry ffName [.page bad []] = false := by decide +kernel
+    let good : Block := [.prop { name := cps "color", value := cps "red", priority := [] }]
+    sheetValid accRe genRegistry ffName [.media [.style bad]] = .ok false ∧
+    sheetValid accRe genRegistry ffName [.page bad []] = .ok false ∧
+    sheetValid accRe genRegistry ffName [.page good [bad]] = .ok false ∧
+    sheetValid accRe genRegistry ffName [.media [.other, .style good, .page good [good]], .other] = .ok true := by
+  decide +kernel
 
 /-! ## T13.6 — validation only annotates -/
 
@@ -324,39 +300,47 @@ theorem template_pattern_accepts_exactly (r : Re) (T : List Template) (h : r.tem
     (hs : s.getLast? ≠ some 10) : accepts r s = true ↔ member T s = true :=
   Re.templatesE_spec_noLF r T h s hs
 
-/-- `none`, accepted by cssutils for `min-width` / `min-height` beyond CSS 2.1 (finding `C13-min-size-none`) -/
-def extraFor (prop : String) : List Template :=
-  if prop == "min-width" || prop == "min-height" then [kw "none"] else []
-
 /-- table check (finite computation, kernel-evaluated) for the 35 single-value properties of
-`Css21.typedProps`: the registered pattern's templates are among the CSS 2.1 templates of the property
-(plus `none` for `min-width`/`min-height`), and contain every CSS 2.1 template without a leading `+`. -/
+`Css21.typedProps`: the registered pattern's templates are among the CSS 2.1 templates of the property, and
+contain every CSS 2.1 template without a leading `+`. -/
 theorem typed_table_check :
     (Css21.typedProps.all fun e =>
       match firstPattern e.1 with
-      | some r => typedAgree r e.2 (extraFor e.1)
+      | some r => typedAgree r e.2 []
       | none => false) = true := by decide +kernel
 
-/-
-T13.4 [W2], full statement (does NOT hold — known findings `C13-plus-sign`, `C13-min-size-none`):
-  ∀ s, s.getLast? ≠ some 10 → (accepts r s = true ↔ member (CSS 2.1 templates of prop) s = true)
--/
-/-- T13.4 [W2] partial, both directions with their exact guards. For every single-value property of
-`Css21.typedProps` and every value text not ending in a line feed:
-(soundness) what the registered check accepts is in the CSS 2.1 grammar of the property — or is `none` for
-`min-width`/`min-height`; (completeness) every value of the CSS 2.1 grammar that is not written with a leading
-`+` sign is accepted. -/
-theorem single_type_agreement_partial (prop : String) (spec : List Template)
-    (hmem : (prop, spec) ∈ Css21.typedProps) :
+/-- T13.4 [W2] soundness, full strength (the `none` exception of `min-width`/`min-height` is gone with the fix
+"min-width and min-height do not accept 'none'"): for every single-value property of `Css21.typedProps` and every
+value text not ending in a line feed, what the registered check accepts is in the CSS 2.1 grammar of the
+property. -/
+theorem single_type_sound (prop : String) (spec : List Template) (hmem : (prop, spec) ∈ Css21.typedProps) :
     ∃ r, firstPattern prop = some r ∧ ∀ s : Str, s.getLast? ≠ some 10 →
-      (accepts r s = true → member (spec ++ extraFor prop) s = true) ∧
-      (member (noPlus spec) s = true → accepts r s = true) := by
+      accepts r s = true → member spec s = true := by
   have h := List.all_eq_true.1 typed_table_check (prop, spec) hmem
   cases hp : firstPattern prop with
   | none => simp [hp] at h
   | some r =>
     simp only [hp] at h
-    exact ⟨r, rfl, fun s hs => typedAgree_spec r spec (extraFor prop) h s hs⟩
+    refine ⟨r, rfl, fun s hs ha => ?_⟩
+    have := (typedAgree_spec r spec [] h s hs).1 ha
+    simpa using this
+
+/-
+T13.4 [W2] completeness, full statement (does NOT hold — known finding `C13-plus-sign`, pinned by an upstream test):
+  ∀ s, s.getLast? ≠ some 10 → member (CSS 2.1 templates of prop) s = true → accepts r s = true
+-/
+/-- T13.4 [W2] completeness, partial with the exact guard: every value of the CSS 2.1 grammar that is not written
+with a leading `+` sign is accepted. -/
+theorem single_type_complete_partial (prop : String) (spec : List Template)
+    (hmem : (prop, spec) ∈ Css21.typedProps) :
+    ∃ r, firstPattern prop = some r ∧ ∀ s : Str, s.getLast? ≠ some 10 →
+      member (noPlus spec) s = true → accepts r s = true := by
+  have h := List.all_eq_true.1 typed_table_check (prop, spec) hmem
+  cases hp : firstPattern prop with
+  | none => simp [hp] at h
+  | some r =>
+    simp only [hp] at h
+    exact ⟨r, rfl, fun s hs => (typedAgree_spec r spec [] h s hs).2⟩
 
 /-- non-vacuity, and what the templates mean on examples (tests, not theorems) -/
 example : member Css21.length (cps "-1.5em") = true ∧ member Css21.length (cps "1.5") = false ∧
@@ -365,12 +349,11 @@ example : member Css21.length (cps "-1.5em") = true ∧ member Css21.length (cps
     member Css21.number (cps "1.") = false ∧ member (noPlus Css21.length) (cps "+1px") = false ∧
     member Css21.length (cps "1PX") = true := by decide +kernel
 
-/-- the findings, machine-checked: `+1px` is a CSS 2.1 `<length>` that the `width` check rejects;
-`none` is accepted for `min-width` although it is not in its CSS 2.1 grammar -/
+/-- the remaining finding, machine-checked: `+1px` is a CSS 2.1 `<length>` that the `width` check rejects;
+`none` is no longer accepted for `min-width` -/
 example : (firstPattern "width").map (fun r => accepts r (cps "+1px")) = some false ∧
     member Css21.length (cps "+1px") = true ∧
-    (firstPattern "min-width").map (fun r => accepts r (cps "none")) = some true ∧
-    (Css21.typedProps.lookup "min-width").map (fun T => member T (cps "none")) = some false := by
+    (firstPattern "min-width").map (fun r => accepts r (cps "none")) = some false := by
   decide +kernel
 
 end CssVerif.C13
